@@ -73,7 +73,7 @@ PARAMS["C07"] = {"rule": "N in {0..8,16,17,33} x item counts 0..=N+3 x nine size
 
 PROPS["C08"] = Prop(
     "C08", ["GA.Props.C08"],
-    [Engine("own", scen.own_c08, sig=own_sig)],
+    [Engine("own", scen.own_c08, sig=own_sig), Engine("heap", scen.heap_c08, sig=lambda l: l.split()[0] + "/" + l.split()[2])],
     trusted=[KERNEL, TRANSLATOR, HARNESS, OWN_TRUST],
     assumptions=["caller code does not panic in this property (C04 covers panics); closures are stateful recorders in the harness",
                  "correspondence covers N in {0..8,16,17,33}; theorems cover every N"],
